@@ -10,7 +10,7 @@ import (
 	"github.com/makiuchi-d/gozxing"
 )
 
-var kinds = []string{"Gray", "RGBA", "NRGBA", "Paletted", "Custom", "RGBints", "YUV", "YUVrev", "YUVoff", "YUVoffrev"}
+var kinds = []string{"Gray", "GraySub0", "GraySubOff", "RGBA", "RGBASub", "NRGBA", "Paletted", "PalettedSub", "Custom", "RGBints", "YUV", "YUVrev", "YUVoff", "YUVoffrev"}
 
 // baseOf names the implementation class behind a source kind (used in violation keys: the Go
 // image kinds share one implementation, so do the YUV kinds).
@@ -107,6 +107,55 @@ func buildSource(kind string, w, h int) *built {
 			}
 		}
 		b.src = gozxing.NewLuminanceSourceFromImage(img)
+	case "GraySub0", "GraySubOff":
+		// a sub-image of a larger Gray image: Stride differs from the view width; "Sub0" keeps the
+		// origin at (0,0), "SubOff" starts inside the parent. Parent pixels outside the view carry
+		// other values, so a row fetched with the wrong stride or origin is visible.
+		ox, oy := 0, 0
+		if kind == "GraySubOff" {
+			ox, oy = 3, 2
+		}
+		parent := image.NewGray(image.Rect(0, 0, ox+w+4, oy+h+3))
+		for i := range parent.Pix {
+			parent.Pix[i] = uint8(37 + 11*i)
+		}
+		for y := 0; y < h; y++ {
+			for x := 0; x < w; x++ {
+				parent.SetGray(ox+x, oy+y, color.Gray{Y: b.want[y][x]})
+			}
+		}
+		b.src = gozxing.NewLuminanceSourceFromImage(parent.SubImage(image.Rect(ox, oy, ox+w, oy+h)))
+	case "RGBASub":
+		parent := image.NewRGBA(image.Rect(0, 0, w+5, h+2))
+		for i := range parent.Pix {
+			parent.Pix[i] = uint8(91 + 7*i)
+			if i%4 == 3 {
+				parent.Pix[i] = 255
+			}
+		}
+		for y := 0; y < h; y++ {
+			for x := 0; x < w; x++ {
+				r, g, bl := colourFor(b.want[y][x], y*w+x)
+				parent.SetRGBA(x, y+1, color.RGBA{r, g, bl, 255})
+			}
+		}
+		b.src = gozxing.NewLuminanceSourceFromImage(parent.SubImage(image.Rect(0, 1, w, 1+h)))
+	case "PalettedSub":
+		pal := make(color.Palette, 256)
+		for i := 0; i < 256; i++ {
+			r, g, bl := colourFor(uint8(i), i)
+			pal[i] = color.RGBA{r, g, bl, 255}
+		}
+		parent := image.NewPaletted(image.Rect(0, 0, w+3, h+1), pal)
+		for i := range parent.Pix {
+			parent.Pix[i] = uint8(5 + 3*i)
+		}
+		for y := 0; y < h; y++ {
+			for x := 0; x < w; x++ {
+				parent.SetColorIndex(x+2, y, b.want[y][x])
+			}
+		}
+		b.src = gozxing.NewLuminanceSourceFromImage(parent.SubImage(image.Rect(2, 0, 2+w, h)))
 	case "RGBA":
 		img := image.NewRGBA(image.Rect(0, 0, w, h))
 		for y := 0; y < h; y++ {
